@@ -19,7 +19,8 @@ LEVEL = "fault_enumeration"
 TECHNIQUE = ("runtime monitoring: last-writer model over the fake hardware's write log with unique, cycle-stamped "
              "values, over exhaustively enumerated cycle/fault sequences")
 RULE = ("all sequences of exactly length L (all prefixes are checked, so 'length <= L') over the alphabet {cycle with "
-        "all values new, cycle with unchanged values, cycle with only register 0 new (>= 2 registers), toggle total "
+        "all values new, cycle with unchanged values, cycle with only register 0 new / only the last register new (>= 2 "
+        "registers), toggle total "
         "write/read failure, toggle failure of every register but the first (>= 2 registers), advance past "
         "reconnect_timeout, tick with reconnect ok, tick with reconnect fail, [thorough: advance past error_timeout, "
         "successful/failing read cycle]}; 1-3 registers; only_write_modified_values on/off; write_batch and per-register "
@@ -36,7 +37,7 @@ ASSUMPTIONS = [
     "a sequence is abandoned at its first violation (later effects would be consequences of it)",
 ]
 REQUIRED = {"sequences": 50000, "clean_cycle_checks": 100000, "hw_writes_checked": 200000, "recoveries_then_clean_cycle": 5000,
-            "pending_flush_writes": 1000}
+            "pending_flush_writes": 200}
 EXHAUSTIVE_ALL = True
 
 T0 = 1_700_000_000.0
@@ -46,7 +47,7 @@ KNOWN = "C24.stale_pending_after_recovery"
 def _alphabet(nreg, tier_extra):
     a = ["Cn", "Cs"]
     if nreg >= 2:
-        a.append("Cp")
+        a += ["Cp", "Cq"]
     a.append("F")
     if nreg >= 2:
         a.append("P")
@@ -63,11 +64,11 @@ def _configs(tier):
     for owm in (True, False):
         out.append(({"nreg": 1, "owm": owm, "api": "batch", "extra": False}, 6 if q else 8))
         out.append(({"nreg": 1, "owm": owm, "api": "single", "extra": False}, 6 if q else 7))
-        out.append(({"nreg": 2, "owm": owm, "api": "batch", "extra": False}, 5 if q else 7))
-        out.append(({"nreg": 3, "owm": owm, "api": "batch", "extra": False}, 4 if q else 6))
+        out.append(({"nreg": 2, "owm": owm, "api": "batch", "extra": False}, 5 if q else (7 if owm else 6)))
+        out.append(({"nreg": 3, "owm": owm, "api": "batch", "extra": False}, 4 if q else 5))
     out.append(({"nreg": 2, "owm": True, "api": "single", "extra": False}, 5 if q else 6))
     out.append(({"nreg": 1, "owm": True, "api": "batch", "extra": True}, 6 if q else 7))
-    out.append(({"nreg": 2, "owm": True, "api": "batch", "extra": True}, 4 if q else 6))
+    out.append(({"nreg": 2, "owm": True, "api": "batch", "extra": True}, 4 if q else 5))
     return out
 
 
@@ -187,6 +188,10 @@ def run_sequence(env, c, seq, cnt, info):
                 continue
             cnt["hw_writes_checked"] = cnt.get("hw_writes_checked", 0) + 1
             cyc = v >> 3
+            if f"R{v & 7}" != name:
+                viol.append(("C24.value_written_to_wrong_register", f"value {v} commanded for register R{v & 7} (cycle {cyc}) "
+                             f"was written to register {name}; at event #{i} {a} of {'/'.join(seq)} {c}"))
+                continue
             from_pending = pend_before.get(name) == v and v != after_call.direct.get(name)
             if from_pending:
                 cnt["pending_flush_writes"] = cnt.get("pending_flush_writes", 0) + 1
@@ -226,6 +231,8 @@ def run_sequence(env, c, seq, cnt, info):
                     commanded[r.name] = cyc * 8 + j
             elif a == "Cp":
                 commanded["R0"] = cyc * 8
+            elif a == "Cq":
+                commanded[regs[-1].name] = cyc * 8 + nreg - 1
             values = [commanded[r.name] for r in regs]
             raised = None
             any_hw_fail = False
@@ -264,8 +271,8 @@ def run_sequence(env, c, seq, cnt, info):
                     if hw.mem.get(r.name) != commanded[r.name]:
                         got = hw.mem.get(r.name)
                         pend = {x.name: v for x, v in d.pending_writes.items()}
-                        if got is not None and (got >> 3) > (commanded[r.name] >> 3):
-                            mech = "C24.harness_value_from_future"
+                        if got is not None and f"R{got & 7}" != r.name:
+                            mech = "C24.value_written_to_wrong_register"
                         elif pend.get(r.name) == commanded[r.name]:
                             mech = "C24.commanded_value_still_pending_after_clean_cycle"
                         else:
